@@ -1,11 +1,11 @@
 #!/usr/bin/env python3
-"""Applies each hand-written property-breaking edit to /repo, runs the named
-checks (quick tier), records verdicts, and reverts the edit. Usage:
+"""Applies each hand-written property-breaking edit to a scratch worktree of /repo
+(never to /repo itself), runs the named checks (quick tier) against that copy
+through the overlay (VERIF_REPO), records verdicts. Usage:
    tools/mutants.py [name ...]      (default: all)
 Results are appended to /verif/.build/mutants.log"""
 import subprocess, sys, json, time, os
 
-R='/repo/'
 M = {
  'M01_C10_passAt_reset_in_process': ('v2/join/join.go', "func (dsc *Discipline[Type]) process(item Type) {\n", "func (dsc *Discipline[Type]) process(item Type) {\n\tdsc.resetPassAt()\n", ['C10']),
  'M02_C04_delay_skips_when_half': ('v2/limit/limit.go', "\tremainder := dsc.opts.Limit.Interval - duration\n", "\tremainder := dsc.opts.Limit.Interval - duration\n\tif duration >= dsc.opts.Limit.Interval/2 {\n\t\treturn\n\t}\n", ['C04']),
@@ -28,31 +28,38 @@ M = {
  'M20_C18_pickup_off_by_one': ('v2/priority/utils/utils.go', "\tfor quantity := maxQuantity; quantity != 0; quantity-- {\n\t\tif isNonFatalConfig(combinations, divider, quantity) {", "\tfor quantity := maxQuantity - 1; quantity != 0 && maxQuantity != 0; quantity-- {\n\t\tif isNonFatalConfig(combinations, divider, quantity) {", ['C18']),
 }
 
-def sh(cmd, timeout=900):
-    p=subprocess.run(cmd,shell=True,capture_output=True,text=True,timeout=timeout)
+def sh(cmd, timeout=1800, env=None):
+    p=subprocess.run(cmd,shell=True,capture_output=True,text=True,timeout=timeout,env=env)
     return p.returncode,p.stdout,p.stderr
 
 names=sys.argv[1:] or sorted(M)
 os.makedirs('/verif/.build',exist_ok=True)
 log=open('/verif/.build/mutants.log','a')
-for n in names:
-    f,old,new,props=M[n]
-    s=open(R+f).read()
-    if s.count(old)!=1:
-        print(n,'PATTERN NOT FOUND/AMBIGUOUS',s.count(old)); continue
-    open(R+f,'w').write(s.replace(old,new))
-    try:
-        for p in props:
-            t=time.time()
-            rc,out,err=sh(f'cd /verif && ./check {p} quick')
-            viol=[l for l in out.splitlines() if l.startswith('VIOLATION')]
-            msg=''
-            ls=out.splitlines()
-            for i,l in enumerate(ls):
-                if l.startswith('VIOLATION') and i+1<len(ls): msg=ls[i+1].strip()[:200]; break
-            line=f'{n} {p}: exit={rc} violations={len(viol)} {time.time()-t:.0f}s {msg}'
-            if rc==2: line+=' STDERR '+err[-300:].replace('\n',' | ')
-            print(line,flush=True); log.write(line+'\n'); log.flush()
-    finally:
-        sh('git -C /repo checkout -- .')
+S=f'/tmp/mutrepo.{os.getpid()}'
+sh(f'git -C /repo worktree add -q --detach {S} HEAD')
+env=dict(os.environ, VERIF_REPO=S, VERIF_BUILD=f'/tmp/mutbuild.{os.getpid()}', VERIF_OUT=f'/tmp/mutout.{os.getpid()}')
+try:
+    for n in names:
+        f,old,new,props=M[n]
+        s=open(S+'/'+f).read()
+        if s.count(old)!=1:
+            print(n,'PATTERN NOT FOUND/AMBIGUOUS',s.count(old)); continue
+        open(S+'/'+f,'w').write(s.replace(old,new))
+        try:
+            for p in props:
+                t=time.time()
+                rc,out,err=sh(f'cd /verif && ./check {p} quick',env=env)
+                viol=[l for l in out.splitlines() if l.startswith('VIOLATION')]
+                msg=''
+                ls=out.splitlines()
+                for i,l in enumerate(ls):
+                    if l.startswith('VIOLATION') and i+1<len(ls): msg=ls[i+1].strip()[:200]; break
+                line=f'{n} {p}: exit={rc} violations={len(viol)} {time.time()-t:.0f}s {msg}'
+                if rc==2: line+=' STDERR '+err[-300:].replace('\n',' | ')
+                print(line,flush=True); log.write(line+'\n'); log.flush()
+        finally:
+            sh(f'git -C {S} checkout -- .')
+finally:
+    sh(f'git -C /repo worktree remove --force {S}')
+    sh(f"rm -rf /tmp/mutbuild.{os.getpid()} /tmp/mutout.{os.getpid()}")
 print('done')
